@@ -78,6 +78,15 @@ def main():
         return res
     finally:
         shutil.rmtree(scratch, ignore_errors=True)
+        old = meta.get('verified') or {}
+        if 'suite_with_change' not in res and old.get('suite_with_change'):
+            res['suite_with_change'] = old['suite_with_change']
+        hist = meta.get('evaluation_history') or []
+        if old.get('detection') is not None:
+            hist.append({'when': old.get('when'), 'detected_by': old.get('detected_by'),
+                         'checks_run': sorted(old.get('detection', {}))})
+        if hist:
+            meta['evaluation_history'] = hist
         meta['verified'] = res
         json.dump(meta, open(meta_path, 'w'), indent=1)
         print(json.dumps({k: res.get(k) for k in ('patch_applies', 'demo_unchanged_exit',
